@@ -68,7 +68,17 @@ pub fn run(tier: Tier, seed: u64) -> i32 {
         let rows = if tier == Tier::Quick && rows > 1000 { 700 } else { rows };
         let mut cfg = GenCfg::all();
         cfg.heavy = rows >= 500;
-        let b = build::random_program(&mut rng, &cfg, rows);
+        // every fourth circuit has wire polynomials whose top one or two
+        // coefficients vanish (degree < n - 1): the mask must still sit on
+        // X^n, X^(n+1) and nowhere else
+        let low = ci % 4 == 3 && rows <= 1000;
+        let b = if low {
+            let levels = 1 + (ci as usize / 4) % 2;
+            ev.bucket("low_degree_wire_columns");
+            build::low_degree_columns(build::random_program(&mut rng, &cfg, rows - levels), levels)
+        } else {
+            build::random_program(&mut rng, &cfg, rows)
+        };
         let families: Vec<&str> = b.families.iter().copied().collect();
         let (prog, inputs) = b.finish();
         let deg = common::min_degree(rows);
@@ -364,5 +374,6 @@ pub fn run(tier: Tier, seed: u64) -> i32 {
     ev.floor("scripts with zero draws", ev.bucket_get("zero_draw_scripts"), tier.pick(100, 3000));
     ev.floor("zero-draw positions", ev.set_len("zero_draw_positions") as u64, 14);
     ev.floor("gate families", ev.set_len("families") as u64, 6);
+    ev.floor("circuits whose wire polynomials have vanishing top coefficients", ev.bucket_get("low_degree_wire_columns"), tier.pick(8, 100));
     ev.finish()
 }
